@@ -59,6 +59,9 @@ THEOREMS = [NS + n for n in [
     "parser_temporary_writes_restored_in_finally",
     "parser_reuse_eq_fresh_all_fields",
     "generator_temporary_writes_restore_places",
+    "schema_reuse_eq_fresh",
+    "schema_cache_serving_misses_witness",
+    "schema_find_cache_shape_ok",
     "tsort_inner_order_independent",
     "absorb_order_independent",
     "absorbed_superset_order_independent",
@@ -298,6 +301,37 @@ def restore_places(funcs, fields):
     return sorted(out)
 
 
+def schema_find_shape(chk=None):
+    """MappingSchema.find: the cache key, how the cache is read, under which condition a cached value is returned and what
+    is stored — one line per statement (`depth:` + source text of the statement head)"""
+    C = _cls("sqlglot/schema.py", "MappingSchema")
+    fn = next((f for f in (C.body if C else []) if isinstance(f, ast.FunctionDef) and f.name == "find"), None)
+    out = []
+    if fn is None:
+        if chk is not None:
+            chk.broken.append({"kind": "translator", "what": "C15 translator: structure changed: MappingSchema.find not found"})
+        return ["<missing>"]
+
+    def walk(stmts, d):
+        for st in stmts:
+            if isinstance(st, ast.Expr) and isinstance(st.value, ast.Constant) and isinstance(st.value.value, str):
+                continue
+            if isinstance(st, ast.If):
+                out.append(f"{d}:if {ast.unparse(st.test)}")
+                walk(st.body, d + 1)
+                if st.orelse:
+                    out.append(f"{d}:else")
+                    walk(st.orelse, d + 1)
+            elif isinstance(st, (ast.For, ast.While, ast.Try, ast.With)):
+                out.append(f"{d}:{type(st).__name__.lower()}")
+                walk(getattr(st, "body", []), d + 1)
+            else:
+                txt = " ".join(ast.unparse(st).split())
+                out.append(f"{d}:{txt[:110]}")
+    walk(fn.body, 0)
+    return out
+
+
 def dialect_fields(chk=None):
     """Dialect.__init__'s assignments and the instance fields any other method of a dialect class writes"""
     init, written = [], set()
@@ -382,6 +416,30 @@ def mutated_class_tables():
         rel = os.path.relpath(path, REPO)
         t = ast.parse(open(path, encoding="utf-8").read())
 
+        def shallow_names(body):
+            """names bound to `{**Other.TABLE, …}`: a NEW dict whose VALUES are still the other table's objects"""
+            names = set()
+            for st in body:
+                if isinstance(st, (ast.Assign, ast.AnnAssign)) and isinstance(st.value, ast.Dict):
+                    if any(k is None and isinstance(v, (ast.Name, ast.Attribute)) for k, v in zip(st.value.keys, st.value.values)):
+                        for tg in (st.targets if isinstance(st, ast.Assign) else [st.target]):
+                            if isinstance(tg, ast.Name):
+                                names.add(tg.id)
+            return names
+
+        def scan_shallow(stmts, where):
+            """`NAME[k] |= …` / `NAME[k].update(…)` on a shallow copy mutates the value shared with the table it was copied from"""
+            sh = shallow_names(stmts)
+            for st in stmts:
+                for n in ast.walk(st):
+                    sub = None
+                    if isinstance(n, ast.AugAssign) and isinstance(n.target, ast.Subscript):
+                        sub, how = n.target, "aug:" + type(n.op).__name__
+                    elif isinstance(n, ast.Call) and isinstance(n.func, ast.Attribute) and n.func.attr in TABLE_MUT and isinstance(n.func.value, ast.Subscript):
+                        sub, how = n.func.value, n.func.attr
+                    if sub is not None and isinstance(sub.value, ast.Name) and sub.value.id in sh and UPPER_RE.match(sub.value.id):
+                        out.add((rel, where.rstrip(".") or "<module>", sub.value.id + "[" + ast.unparse(sub.slice) + "]", how + "-on-shallow-copy"))
+
         def scan_nodes(root, where, own):
             for n in ast.walk(root):
                 tgt = how = None
@@ -409,10 +467,12 @@ def mutated_class_tables():
                     loc = {n.id for n in ast.walk(st) if isinstance(n, ast.Name) and isinstance(n.ctx, ast.Store)}
                     scan_nodes(st, where + st.name, loc)
                 elif isinstance(st, ast.ClassDef):
+                    scan_shallow(st.body, where + st.name + ".")
                     scan(st.body, where + st.name + ".", own_names(st.body))
                 else:
                     scan_nodes(st, where.rstrip(".") or "<module>", own)
 
+        scan_shallow(t.body, "")
         scan(t.body, "", own_names(t.body))
     return sorted(out)
 
@@ -476,6 +536,7 @@ def translate(chk) -> str:
     gconfig = {a for a, _ in r["generatorInit"]} - {a for a, _ in r["generatorReset"]}
     for nm, rows in (("parserRestorePlaces", restore_places(pfuncs, pconfig)), ("generatorRestorePlaces", restore_places(gfuncs, gconfig))):
         L.append(f"def {nm} : List (String × String × String) := " + lean_list("(" + ", ".join(lean_str(x) for x in e) + ")" for e in rows))
+    L.append("def schemaFindShape : List String := " + lean_list(lean_str(a) for a in schema_find_shape(chk)))
     dinit, dwritten = dialect_fields(chk)
     L.append("def dialectInit : List (String × String) := " + lean_list("(" + lean_str(a) + ", " + lean_str(b) + ")" for a, b in dinit))
     L.append("def dialectWritten : List String := " + lean_list(lean_str(a) for a in dwritten))
@@ -709,6 +770,11 @@ def run_case(op, a):
                 outs.append("EXC:" + type(e).__name__)
             try:
                 outs.append(parse_one(q, read=a["second"]).sql(dialect=a["second"]))
+            except Exception as e:  # noqa
+                outs.append("EXC:" + type(e).__name__)
+            try:
+                e2 = annotate_types(parse_one(q, read=a["second"]), dialect=a["second"])
+                outs.append("types:" + ",".join(x.type.sql() if x.type else "?" for x in getattr(e2, "selects", [])))
             except Exception as e:  # noqa
                 outs.append("EXC:" + type(e).__name__)
         return "\n".join(outs)
@@ -1018,6 +1084,7 @@ PAIR_CORPUS = [
     "SELECT x -> '$.k', x ->> 'k', LEVENSHTEIN(a, b), IF(a, 1, 2), TRY_CAST(a AS INT), a % 2, LOG(2, a) FROM t",
     "SELECT INTERVAL '1' YEAR_MONTH, INTERVAL 5 DAY_SECOND, INTERVAL '1' day, a + INTERVAL 2 WEEK, INTERVAL '3' HOUR_MINUTE AS x FROM t",
     "SELECT PRIOR x, a FROM t START WITH a = 1 CONNECT BY PRIOR a = b",
+    "SELECT CAST(a AS VARCHAR) + CAST(b AS DATE), COALESCE(CAST(a AS VARCHAR), CAST(b AS TIMESTAMP)), CASE WHEN x THEN CAST(a AS TEXT) ELSE CAST(b AS DATE) END, CAST(a AS BIGINT) + CAST(b AS DECIMAL) FROM t",
 ]
 
 
@@ -1071,8 +1138,19 @@ def pair_sweep(chk, width=8):
         alone = str(res[(None, second)]).split("\n")
         after = str(out).split("\n")
         j = next((i for i, (x, y) in enumerate(zip(alone, after)) if x != y), 0)
-        found.append((first, second, PAIR_CORPUS[j // 2], alone[j] if j < len(alone) else "", after[j] if j < len(after) else ""))
-    chk.cov["dialect_pairs"] = {"pairs": len(pairs), "processes": len(specs)}
+        found.append((first, second, PAIR_CORPUS[j // 3], alone[j] if j < len(alone) else "", after[j] if j < len(after) else ""))
+    # "after every dialect" differences: which single dialect is enough?  (one attribution run, reused for the same statement)
+    culprit: dict = {}
+    for i, (first, second, q, alone_, after_) in enumerate(found):
+        if first != "*":
+            continue
+        if q not in culprit:
+            others = [x for x in every if x != second]
+            gl = [[[f"c:{x}", "pair", {"first": x, "second": second, "corpus": [q], "sql": "pair"}]] for x in others]
+            base = fork_run([[["c:0", "pair", {"first": None, "second": second, "corpus": [q], "sql": "pair"}]]], 0)[0].get("c:0")
+            culprit[q] = next((x for x, out in zip(others, fork_run(gl, 0)) if out.get(f"c:{x}") != base), "*")
+        found[i] = (culprit[q], second, q, alone_, after_)
+    chk.cov["dialect_pairs"] = {"pairs": len(pairs), "processes": len(specs), "attributed": culprit}
     return found
 
 
@@ -1180,6 +1258,106 @@ def norm_exc(e):
     return "EXC:" + type(e).__name__ + ":" + str(e)[:200]
 
 
+SCHEMA_MAPPINGS = [
+    {"t": {"a": "INT", "b": "TEXT"}, "x": {"a": "INT"}},
+    {"db1": {"t": {"a": "INT"}, "x": {"a": "INT", "c": "DATE"}}, "db2": {"t": {"b": "TEXT"}, "y": {"a": "INT"}}},
+    {"c1": {"db1": {"t": {"a": "INT"}}}, "c2": {"db1": {"t": {"a": "DOUBLE"}, "x": {"a": "INT"}}, "db2": {"z": {"e": "INT"}}}},
+]
+SCHEMA_TABLES = ["t", "db1.t", "c1.db1.t", "x", "db2.y", "nope", "db1.nope", "z"]
+
+
+def schema_op(schema, op):
+    """one call on a MappingSchema (or an optimizer entry point given that schema object) -> value or exception text"""
+    import sqlglot
+    from sqlglot import exp
+    from sqlglot.optimizer import optimize
+    from sqlglot.optimizer.annotate_types import annotate_types
+    from sqlglot.optimizer.qualify import qualify
+    kind = op[0]
+    try:
+        if kind == "find":
+            r = schema.find(exp.to_table(op[1]), raise_on_missing=op[2], ensure_data_types=op[3])
+            return "None" if r is None else str(sorted((k, v.sql() if hasattr(v, "sql") else v) for k, v in r.items()))
+        if kind == "names":
+            return str(list(schema.column_names(op[1])))
+        if kind == "type":
+            return schema.get_column_type(op[1], op[2]).sql()
+        if kind == "has":
+            return str(schema.has_column(op[1], op[2]))
+        if kind == "qualify":
+            return qualify(sqlglot.parse_one(op[1]), schema=schema).sql()
+        if kind == "annotate":
+            e = annotate_types(sqlglot.parse_one(op[1]), schema=schema)
+            return ",".join(x.type.sql() if x.type else "?" for x in e.selects)
+        if kind == "optimize":
+            return optimize(sqlglot.parse_one(op[1]), schema=schema).sql()
+        raise ValueError(kind)
+    except RecursionError:
+        return "EXC:RecursionError"
+    except Exception as e:  # noqa
+        return "EXC:" + type(e).__name__ + ":" + str(e)[:160]
+
+
+def schema_rand_op(rng):
+    t = rng.choice(SCHEMA_TABLES)
+    r = rng.random()
+    if r < 0.25:
+        return ["find", t, rng.random() < 0.5, rng.random() < 0.4]
+    if r < 0.42:
+        return ["names", t]
+    if r < 0.58:
+        return ["type", t, rng.choice(["a", "b", "zz"])]
+    if r < 0.70:
+        return ["has", t, rng.choice(["a", "b", "zz"])]
+    alias = t.split(".")[-1]
+    sql = rng.choice([f"SELECT {alias}.a FROM {t} AS {alias}", f"SELECT * FROM {t}", f"SELECT a FROM {t}", f"SELECT a + 1 AS s FROM {t} WHERE a > 0"])
+    return [rng.choice(["qualify", "annotate", "optimize"]), sql]
+
+
+def schema_reuse(chk, report_schema, budget_s):
+    """one MappingSchema object answering a history of tolerant / strict lookups and optimizer calls; every answer is compared
+    with a schema freshly built from the same mapping (Properties/C15.lean schema_reuse_eq_fresh / …_serving_misses_witness)"""
+    import copy
+    from sqlglot.schema import MappingSchema
+    rng = chk.rng
+    t0 = time.time()
+    n = 0
+    fixed = []
+    for t in ("t", "nope", "db1.t", "x"):
+        a = t.split(".")[-1]
+        fixed += [
+            [["type", t, "a"], ["names", t]], [["names", t], ["type", t, "a"]],
+            [["find", t, False, False], ["find", t, True, False]], [["find", t, True, False], ["find", t, False, False]],
+            [["annotate", f"SELECT {a}.a FROM {t} AS {a}"], ["names", t], ["qualify", f"SELECT * FROM {t}"], ["qualify", f"SELECT a FROM {t}"]],
+            [["has", t, "a"], ["find", t, True, True], ["optimize", f"SELECT a FROM {t}"]],
+        ]
+    hists = [(mi, h) for mi in range(len(SCHEMA_MAPPINGS)) for h in fixed]
+    while len(hists) < chk.pick(140, 1500):
+        hists.append((rng.randrange(len(SCHEMA_MAPPINGS)), [schema_rand_op(rng) for _ in range(rng.randint(2, 7))]))
+    for mi, hist in hists:
+        if time.time() - t0 > budget_s:
+            break
+        mapping = SCHEMA_MAPPINGS[mi]
+        reused = MappingSchema(copy.deepcopy(mapping))
+        for i, op in enumerate(hist):
+            n += 1
+            a = schema_op(MappingSchema(copy.deepcopy(mapping)), op)
+            b = schema_op(reused, op)
+            if a != b:
+                # which single earlier call is enough?
+                prev = hist[:i]
+                for j in range(len(prev)):
+                    r2 = MappingSchema(copy.deepcopy(mapping))
+                    schema_op(r2, prev[j])
+                    if schema_op(r2, op) != a:
+                        prev = [prev[j]]
+                        break
+                report_schema(mi, prev, op, a, b)
+                break
+        chk.case(("schema-reuse", mi, str(hist)), nontrivial=len(hist) > 1)
+    return n
+
+
 def reuse_checks(chk, budget_s):
     import logging
     import sqlglot
@@ -1225,6 +1403,18 @@ def reuse_checks(chk, budget_s):
                               "extra": extra, "fresh": str(a)[:400], "reused": str(b)[:400]},
                              {"dialect": d or "", "class": "after-exception"})
 
+    def report_schema(mi, prev, op, a, b):
+        nonlocal found
+        found += 1
+
+        def sk(o):
+            return o[0] + "(" + ("strict" if (o[0] == "find" and o[2]) else "tolerant" if o[0] == "find" else "") + ")"
+        chk.report_violation(f"reuse:MappingSchema:{sk(op)}|after:{'+'.join(sk(o) for o in prev)}",
+                             f"a reused MappingSchema answers {str(b)[:100]!r} to {op}, a fresh one over the same mapping {str(a)[:100]!r} (after {prev})",
+                             {"kind": "reuse-schema", "mapping": SCHEMA_MAPPINGS[mi], "history": prev, "op": op, "fresh": str(a)[:400], "reused": str(b)[:400]},
+                             {"class": "schema-history"})
+
+    n += schema_reuse(chk, report_schema, chk.pick(5.0, 60.0))
     # --- a Parser that CRASHED (an internal exception escaping a speculative sub-parse) must still answer like a new one:
     #     tree, errors list and the error_level attribute, for every error level
     #     (Properties/C15.lean try_parse_restores_level_all_exits / try_parse_restore_needs_finally)
@@ -1559,6 +1749,17 @@ def replay(path: str) -> int:
     if not r:
         print(json.dumps(rec, indent=1)[:4000])
         return 1
+    if r["kind"] == "reuse-schema":
+        import copy
+        import logging
+        from sqlglot.schema import MappingSchema
+        logging.getLogger("sqlglot").setLevel(logging.CRITICAL)
+        reused = MappingSchema(copy.deepcopy(r["mapping"]))
+        for o in r["history"]:
+            schema_op(reused, o)
+        a, b = schema_op(MappingSchema(copy.deepcopy(r["mapping"])), r["op"]), schema_op(reused, r["op"])
+        print("replay:", f"VIOLATES: fresh {a[:120]!r}, reused after {r['history']} {b[:120]!r}" if a != b else "holds")
+        return 1 if a != b else 0
     if r["kind"] == "pair":
         outs = []
         for first in (None, r["first"]):
